@@ -301,7 +301,7 @@ def run(ck: Check):
                        "a tensor that occurs in several Einsums is generated with the same image through every access "
                        "(TLC invariant Consistent), so its size does not depend on which access defines it"]
     sfx = "t" if thorough else "q"
-    nsim = 4
+    nsim = 4 if thorough else 2
     jobs = [dict(module="MC_Geometry", cfg="MC_Geometry_lemma2.cfg", workers=2, timeout=900),
             dict(module="MC_Geometry", cfg="MC_Geometry_exh_%s.cfg" % sfx, workers=4, timeout=1100, coverage=False)]
     if thorough:
@@ -332,7 +332,7 @@ def run(ck: Check):
                           "holds for all %d non-empty subsets of the small grids; Consistent (shared tensors have one image) "
                           "holds on every generated workload" % nlem)
     recs = [r for _, r in allrecs]
-    ncpu = 6
+    ncpu = 6 if thorough else 4
     size = max(50, min(400, len(recs) // (ncpu * 4) + 1))
     chunks = [(recs[i:i + size], i, ck.seed) for i in range(0, len(recs), size)]
     with ProcessPoolExecutor(ncpu) as ex:
@@ -379,9 +379,6 @@ def replay(path):
         return 2
     for sig, detail in bad:
         print("  %s: %s" % (sig, detail))
-    if any(sig == rec.get("signature") for sig, _ in bad) or (bad and "signature" not in rec):
-        print("VIOLATION property=%s replay=%s" % (PID, path))
-        return 1
     if bad:
         print("VIOLATION property=%s replay=%s" % (PID, path))
         return 1
